@@ -348,6 +348,27 @@ pub fn suite(kind: &'static str, prop: &str, tier: &str, seed: u64) -> Report {
                     }
                     set_number(&mut d2, pos, num);
                     let want = expected(&d2);
+                    // with ignore_header(true) the declared counts are not enforced: what only breaks a declared count is accepted
+                    if want.is_none() && d2.header.is_some() {
+                        let mut d3 = d2.clone();
+                        let mut hdr_fits = true;
+                        if let Some(h) = d3.header.as_mut() {
+                            hdr_fits = h.iter().all(|x| big(x) >= 0 && big(x) <= usize::MAX as i128) && big(&h[0]) <= lit_max(kind) && (kind != "wcnf" || big(&h[2]) <= u64::MAX as i128);
+                            for x in h.iter_mut() {
+                                *x = "0".to_string();
+                            }
+                        }
+                        if let (true, Some(w)) = (hdr_fits, expected(&d3)) {
+                            let fi = FORMATS.iter().find(|f| f.name == format!("{}_ign", kind)).unwrap();
+                            let t = render(&d2, &c, None);
+                            let o = run(fi, &t.bytes, ONE_SHOT);
+                            rep.runs += 1;
+                            let got = clause_items(&o.items, true);
+                            if o.end != End::Clean || got != w {
+                                rep.fail("C06 the counts of a header the caller asked to ignore are not enforced", show(&t.bytes), vec![s("c06i"), di.to_string(), pos.to_string(), ni.to_string()], format!("with ignore_header(true): expected clauses {:?} and a clean end, got {:?} {:?}", w, got, o.end));
+                            }
+                        }
+                    }
                     for (li, l) in [c.clone(), Layout { split: 2, indent: " ", ..c.clone() }].iter().enumerate() {
                         let t = render(&d2, l, None);
                         rep.inputs += 1;
